@@ -2067,3 +2067,37 @@ mod tests {
         assert_eq!(queue.revisions[1].load(), Revision::start());
     }
 }
+
+/// Verification hooks (compiled only with `--cfg salsa_verif`): drive the private
+/// [`RevisionQueue`] on raw revision numbers.
+#[cfg(salsa_verif)]
+pub mod verif_hooks {
+    use super::*;
+
+    pub struct Rq(RevisionQueue);
+
+    impl Rq {
+        /// `None` = `revisions = usize::MAX` (collection disabled)
+        pub fn new(capacity: Option<usize>) -> Self {
+            Rq(RevisionQueue::new(match capacity {
+                Some(n) => NonZeroUsize::new(n).expect("capacity must be non-zero"),
+                None => IMMORTAL,
+            }))
+        }
+        pub fn is_empty(&self) -> bool {
+            self.0.revisions.is_empty()
+        }
+        pub fn record(&self, revision: usize) {
+            self.0.record(Revision::from(revision))
+        }
+        pub fn is_primed(&self) -> bool {
+            self.0.is_primed()
+        }
+        pub fn is_stale(&self, revision: usize) -> bool {
+            self.0.is_stale(Revision::from(revision))
+        }
+        pub fn dump(&self) -> Vec<usize> {
+            self.0.revisions.iter().map(|r| r.load().as_usize()).collect()
+        }
+    }
+}
